@@ -5,6 +5,7 @@ import (
 	stdtls "crypto/tls"
 	"io"
 	"net"
+	"os"
 	"sync"
 	"time"
 
@@ -30,6 +31,8 @@ type schedLink struct {
 	eofDelivered bool
 	writes       [][]byte // everything the client wrote
 	direct       bool     // peer output is delivered at once (no network thread)
+	stalled      bool     // the peer stopped reading: client writes block until the client closes its end
+	wdeadline    bool     // a write deadline is set (a blocked write may time out)
 
 	// peer side (real synchronisation: the peer goroutine is not managed)
 	mu       sync.Mutex
@@ -148,10 +151,15 @@ func (l *schedLink) eofSeen() bool { return l.peerEOF && len(l.pending) == 0 && 
 func (c clientEnd) Write(b []byte) (int, error) {
 	l := c.l
 	if t := sched.Current(); t != nil {
-		t.Do(&l.obj, "conn.write", nil, nil)
+		// a stalled transport accepts nothing; a blocked write ends when the connection is closed
+		// or, time being abstract here, as soon as a write deadline has been set
+		t.Do(&l.obj, "conn.write", func() bool { return !l.stalled || l.closed || l.wdeadline }, nil)
 	}
 	if l.closed {
 		return 0, net.ErrClosed
+	}
+	if l.stalled {
+		return 0, os.ErrDeadlineExceeded
 	}
 	l.writes = append(l.writes, append([]byte(nil), b...))
 	l.mu.Lock()
@@ -176,11 +184,11 @@ func (c clientEnd) Close() error {
 	l.mu.Unlock()
 	return nil
 }
-func (c clientEnd) LocalAddr() net.Addr              { return memAddr("client") }
-func (c clientEnd) RemoteAddr() net.Addr             { return memAddr("peer") }
-func (c clientEnd) SetDeadline(time.Time) error      { return nil }
-func (c clientEnd) SetReadDeadline(time.Time) error  { return nil }
-func (c clientEnd) SetWriteDeadline(time.Time) error { return nil }
+func (c clientEnd) LocalAddr() net.Addr                { return memAddr("client") }
+func (c clientEnd) RemoteAddr() net.Addr               { return memAddr("peer") }
+func (c clientEnd) SetDeadline(t time.Time) error      { c.l.wdeadline = !t.IsZero(); return nil }
+func (c clientEnd) SetReadDeadline(time.Time) error    { return nil }
+func (c clientEnd) SetWriteDeadline(t time.Time) error { c.l.wdeadline = !t.IsZero(); return nil }
 
 // network is the body of the managed daemon thread that delivers pending peer output.
 func (l *schedLink) network() {
@@ -251,6 +259,7 @@ func stdServerConfig() *stdtls.Config {
 // testLink is what the scheduling scenarios use: under the controlled scheduler a schedLink,
 // in the free-running -race pass an ordinary blocking in-memory pipe to the same server.
 type testLink struct {
+	stall   func() // from now on transport writes block until Close (nil when free-running)
 	conn    net.Conn
 	network func() // body of the network daemon (no-op when free-running)
 	close   func()
@@ -283,5 +292,5 @@ func newTestLink() *testLink {
 	}
 	l := newSchedLink()
 	l.stdServer(stdServerConfig())
-	return &testLink{conn: clientEnd{l}, network: l.network, close: func() { closeLink(l) }, closed: func() bool { return l.closed }}
+	return &testLink{conn: clientEnd{l}, network: l.network, close: func() { closeLink(l) }, closed: func() bool { return l.closed }, stall: func() { l.stalled = true }}
 }
